@@ -39,7 +39,7 @@ func (p *c11) Rule() string {
 	return fmt.Sprintf("a case = %d expression texts + %d template texts derived from antlr/Excellent3.g4 (all operators with mixed precedence/associativity, unary-minus chains, redundant/missing parentheses, dot/index lookups with names, integers and quoted keys, calls of every deterministic registered function, lambdas, every spelling of text/number/boolean/null literals, random case and white space; templates add body text, '@@' and @identifiers), each evaluated in %d random (environment, context) pairs. For every text the real parser accepts: print, re-parse, print again, evaluate original and printed tree; for every template: refactor.Template with an identity transformation (keeping and re-printing) and with ContextRefRename(a -> b.c). An expression is non-trivial when it parsed and its tree has >= 2 operators or a lookup/call; a case is non-trivial when it holds such an expression; distinct = distinct case texts.", c11ExprsPerCase, c11TplsPerCase, c11Contexts)
 }
 func (p *c11) Directed() []string {
-	return []string{"associativity", "literals", "lookups-lambdas", "refactor-tests", "doc-examples", "known:integer-dot-chain", "known:number-trailing-zeros", "known:trailing-backslash", "known:cherokee-identifier", "known:rename-lambda-capture", "known:rename-casefold"}
+	return []string{"associativity", "literals", "lookups-lambdas", "refactor-tests", "doc-examples", "known:integer-dot-chain", "known:number-trailing-zeros", "known:trailing-backslash", "known:cherokee-identifier", "rename-lambda-capture", "known:rename-casefold"}
 }
 func (p *c11) NumGenerated(tier string) int {
 	if tier == "thorough" {
@@ -693,9 +693,8 @@ func (k *c11run) chooseRename(tpl string, toks []token, directed string) (from, 
 	}
 	var cands []string
 	for _, key := range k.tops {
-		// a parameter of a lambda that shadows the renamed name is renamed as well by goflow (see the
-		// directed case known:rename-lambda-capture); generated cases keep out of that corner
-		if used[key] && !params[key] && functions.Lookup(key) == nil && isASCII(key) {
+		// (a lambda parameter that shadows the renamed name is in scope: its uses must not be renamed)
+		if used[key] && functions.Lookup(key) == nil && isASCII(key) {
 			cands = append(cands, key)
 		}
 	}
@@ -703,9 +702,6 @@ func (k *c11run) chooseRename(tpl string, toks []token, directed string) (from, 
 		from = fw.Pick(k.r, cands)
 	} else {
 		from = fw.Pick(k.r, []string{"foo", "contact", "results", "obj", "arr"})
-		if params[from] {
-			from = "nums"
-		}
 	}
 	lower := strings.ToLower(tpl)
 	b := ""
@@ -789,7 +785,9 @@ func (k *c11run) tplRename(tpl, from, to string, count bool) *failure {
 			if err != nil || pn != nil {
 				continue // decided by the value clause
 			}
-			want := contextRefs(a)
+			// references = free uses of a name; a use of a lambda parameter of the same name is not a reference to the context
+			// (the evaluator resolves it to the parameter) and must stay as it is
+			want := scopedRefs(a)
 			n := 0
 			for j := range want {
 				if want[j] == lfrom {
@@ -798,8 +796,11 @@ func (k *c11run) tplRename(tpl, from, to string, count bool) *failure {
 				}
 			}
 			sort.Strings(want)
-			got := contextRefs(b)
+			got := scopedRefs(b)
 			if count {
+				if contains(want, "λ:"+lfrom) {
+					k.res.Count("rename.shadowed_by_lambda_parameter", 1)
+				}
 				if n > 0 {
 					k.res.Count("clause.rename_refs", 1)
 					k.res.Count("rename.references_renamed", int64(n))
@@ -1039,7 +1040,7 @@ func c11Directed(name string) (exprs, tpls []string) {
 	case "known:cherokee-identifier":
 		exprs = []string{`((Ꭰ) => Ꭰ)(1)`, `(ᏣᎳᎩ) => ᏣᎳᎩ & "!"`, `foreach(arr, (xᎠ) => xᎠ)`}
 		tpls = []string{`@(((Ꭰ) => Ꭰ)(foo))`}
-	case "known:rename-lambda-capture":
+	case "rename-lambda-capture":
 		tpls = []string{`@(foreach(arr, (foo) => foo & "!")) @foo`, `@(((foo) => foo + 1)(10)) @foo`, `@(foreach(arr, (Foo) => foo))`}
 	case "known:rename-casefold":
 		// the Kelvin sign and the long s only case-FOLD to k / s
